@@ -19,7 +19,7 @@
      NV.CramRec.Container  build_container bookkeeping (io/writer/container.rs), Block::size and
                            write_block (io/writer/container/block.rs), record counters (io/writer.rs) *)
 From Coq Require Import List NArith ZArith.
-From NV Require Import CramRec.Features CramRec.FeaturesProofs CramRec.FeaturesTotal CramRec.FeaturesMissing CramRec.Container CramRec.ContainerProofs CramRec.ContainerItf8 CramRec.Mates CramRec.MatesProofs CramRec.MatesChain CramRec.MatesWriter CramRec.MatesLoop CramRec.MatesBytes CramRec.MatesBytesProofs CramRec.SliceHeader CramRec.SliceHeaderProofs CramRec.File CramRec.FileProofs CramRec.FileRender CramRec.FileNames CramRec.FileNamesProofs.
+From NV Require Import CramRec.Features CramRec.FeaturesProofs CramRec.FeaturesTotal CramRec.FeaturesMissing CramRec.Container CramRec.ContainerProofs CramRec.ContainerItf8 CramRec.Mates CramRec.MatesProofs CramRec.MatesChain CramRec.MatesWriter CramRec.MatesLoop CramRec.MatesBytes CramRec.MatesBytesProofs CramRec.SliceHeader CramRec.SliceHeaderProofs CramRec.File CramRec.FileProofs CramRec.FileRender CramRec.FileNames CramRec.FileNamesProofs CramRec.FeaturesStop CramRec.FeaturesStopProofs.
 Import ListNotations.
 Open Scope N_scope.
 
@@ -971,3 +971,44 @@ Proof.
   split; [|split; vm_compute; reflexivity].
   repeat constructor; cbn; try (intros [H|[]]; discriminate); discriminate.
 Qed.
+
+(* ------------------------------------------------------------------------------------------ *)
+(* The soft-clip / insertion base series (SC / IN) at the byte level (NV.CramRec.FeaturesStop):  *)
+(* ByteArrayStop with stop byte 0x00.  [roundtrip_stop] = [roundtrip] with every soft clip and   *)
+(* insertion re-read from its series' block; it is what the `feat` kind compares.               *)
+
+(* without a NUL byte among the bases the byte level changes nothing - for every record, accepted
+   or not, whatever its CIGAR *)
+Theorem c07_features_stop_identity : forall sm refseq seq quals ops start, ~ In 0 seq ->
+  roundtrip_stop sm refseq seq quals ops start = roundtrip sm refseq seq quals ops start.
+Proof. exact roundtrip_stop_eq. Qed.
+Print Assumptions c07_features_stop_identity.
+
+(* so the per-record round trip holds through the byte level of these series *)
+Theorem c07_record_roundtrip_bytes_partial :
+  forall sm refseq seq quals ops start,
+    valid_sm sm -> Forall (fun o => 0 < snd o) ops -> read_len ops = len seq ->
+    seq <> [] -> ~ In 0 seq -> (quals = [] \/ len quals = len seq) ->
+    1 <= start -> start <= len refseq -> start + ref_len ops <= len refseq + 1 ->
+    cigar_to_features true refseq seq (writer_quals seq quals) ops start <> None ->
+    exists s, roundtrip_stop sm refseq seq quals ops start = ROk (simplify (norm_ops ops)) s
+              /\ eq_nocase_list s seq = true.
+Proof.
+  intros sm refseq seq quals ops start H1 H2 H3 H4 Hn H5 H6 H7 H8 H9.
+  rewrite (roundtrip_stop_eq sm refseq seq quals ops start Hn).
+  exact (roundtrip_ok sm refseq seq quals ops start H1 H2 H3 H4 H5 H6 H7 H8 H9).
+Qed.
+Print Assumptions c07_record_roundtrip_bytes_partial.
+
+(* REFUTED with a NUL byte in a soft clip (known class
+   cram-clip-or-insertion-base-nul-byte-cuts-feature): the writer accepts POS 5, CIGAR 2S3M, bases
+   `A\0ACG`; the value-level model reads it back unchanged, the byte level - and the real reader -
+   as 1S4M AACGT *)
+Theorem c07_features_stop_refuted : exists refseq seq quals ops start,
+  roundtrip default_sm refseq seq quals ops start = ROk ops seq /\
+  roundtrip_stop default_sm refseq seq quals ops start = ROk [(KS, 1); (KM, 4)] [65;65;67;71;84].
+Proof.
+  exists file_ex_ref, [65;0;65;67;71], [30;30;30;30;30], [(KS, 2); (KM, 3)], 5.
+  split; vm_compute; reflexivity.
+Qed.
+Print Assumptions c07_features_stop_refuted.
